@@ -9,6 +9,8 @@ Class EqB (A : Type) := { eqb : A -> A -> bool; eqb_eq : forall x y, eqb x y = t
 #[export] Program Instance EqB_bool : EqB bool := {| eqb := Bool.eqb |}.
 Next Obligation. destruct x, y; simpl; split; congruence. Qed.
 
+Definition is_nil {T} (l : list T) : bool := match l with [] => true | _ => false end.
+
 Section Pair.
   Context {A B : Type} `{EqB A} `{EqB B}.
   Definition pair_eqb (p q : A * B) : bool := eqb (fst p) (fst q) && eqb (snd p) (snd q).
